@@ -447,7 +447,10 @@ def shrink_ty(t):
 """
 val  ::= ["sum", tag, ty, [val..]] | ["unitsum", tag, size] | ["bool", b] | ["tuple", [val..]] | ["some", [val..]]
        | ["none", [ty..]] | ["left", [val..], [ty..]] | ["right", [ty..], [val..]]
-       | ["func", "dfg"|"defn", [ty..], [out..]]      out ::= ["in", i] | ["const", val]  (val: int/bool/float)
+       | ["func", "dfg"|"defn", [ty..], [out..]]      out ::= ["in", i] | ["const", val]  (val: int/bool/float/func)
+       | ["func", "dfgx"|"load", [ty..], [out..], [ext..]]   DFG root that declares extension requirements: built
+                                                      with DfBase(ops.DFG(ins, None, reqs)) / that body read back
+                                                      with Hugr.load_json(body.to_json())
        | ["ext", name, ty, [ext..]] | ["int", v, w] | ["float", x] | ["string", s]
        | ["array", [val..], ty] | ["list", [val..], ty] | ["sarray", [val..], ty, name]
 """
@@ -463,6 +466,11 @@ def gcname(s) -> str:
 
 def func_out_types(ins, outs):
     return [ins[o[1]] if o[0] == "in" else val_type_desc(o[1]) for o in outs]
+
+
+def func_reqs(v):
+    """Extension requirements the root of a function description declares (absent field = none)."""
+    return list(v[4]) if len(v) > 4 else []
 
 
 def val_type_desc(v):
@@ -485,7 +493,7 @@ def val_type_desc(v):
     if k == "right":
         return ["either", v[1], [val_type_desc(x) for x in v[2]]]
     if k == "func":
-        return ["func", v[2], func_out_types(v[2], v[3]), []]
+        return ["func", v[2], func_out_types(v[2], v[3]), func_reqs(v)]
     if k == "ext":
         return v[2]
     if k == "int":
@@ -503,15 +511,25 @@ def val_type_desc(v):
     raise ValueError(v)
 
 
-def build_func_body(kind, ins, outs):
+def build_func_body(kind, ins, outs, reqs=()):
     from hugr.build.dfg import Dfg, Function
     tin = [build_ty(t) for t in ins]
-    b = Dfg(*tin) if kind == "dfg" else Function("f", tin)
+    if kind in ("dfgx", "load"):
+        from hugr import ops
+        from hugr.build.dfg import DfBase
+        b = DfBase(ops.DFG(tin, None, list(reqs)))
+    elif reqs:
+        raise ValueError("only dfgx / load bodies declare extension requirements")
+    else:
+        b = Dfg(*tin) if kind == "dfg" else Function("f", tin)
     wires = list(b.inputs())
     res = []
     for o in outs:
         res.append(wires[o[1]] if o[0] == "in" else b.load(build_val(o[1])))
     b.set_outputs(*res)
+    if kind == "load":
+        from hugr.hugr import Hugr
+        return Hugr.load_json(b.hugr.to_json())
     return b.hugr
 
 
@@ -544,7 +562,7 @@ def build_val(v):
     if k == "right":
         return val.Right(it(ts(v[1]), 1), it(vs(v[2]), 0))
     if k == "func":
-        return val.Function(build_func_body(v[1], v[2], v[3]))
+        return val.Function(build_func_body(v[1], v[2], v[3], func_reqs(v)))
     if k == "ext":
         return val.Extension(v[1], build_ty(v[2]), {"payload": 1}, list(v[3]))
     if k == "int":
@@ -573,8 +591,34 @@ def gtyd(t) -> str:
     return gty(build_ty(t))
 
 
-def gfsig(ins, outs_t) -> str:
-    return "{| fs_in := %s; fs_out := %s; fs_reqs := [] |}" % (glist(gtyd(t) for t in ins), glist(gtyd(t) for t in outs_t))
+def gfsig(ins, outs_t, reqs=()) -> str:
+    return "{| fs_in := %s; fs_out := %s; fs_reqs := %s |}" % (
+        glist(gtyd(t) for t in ins), glist(gtyd(t) for t in outs_t), glist(gname(x) for x in sorted(reqs)))
+
+
+def gtyd_loaded(t) -> str:
+    """Literal of a type description as it stands in a body read back from JSON (Hugr.load_json does not resolve
+    extension types: they stay opaque), printed from the serial form of the type."""
+    return jty(build_ty(t)._to_serial_root().model_dump(mode="json"))
+
+
+def gfunc_sig(v, loaded):
+    """(fsig literal, TFunc literal) of the root signature of a function description; `loaded`: the body is
+    (inside) one that was read back from JSON."""
+    loaded = loaded or v[1] == "load"
+    g = gtyd_loaded if loaded else gtyd
+    ins = [g(t) for t in v[2]]
+    outs = []
+    for o in v[3]:
+        if o[0] == "in":
+            outs.append(ins[o[1]])
+        elif o[1][0] == "func":
+            outs.append(gfunc_sig(o[1], loaded)[1])
+        else:
+            outs.append(g(val_type_desc(o[1])))
+    reqs = glist(gname(x) for x in sorted(func_reqs(v)))
+    return ("{| fs_in := %s; fs_out := %s; fs_reqs := %s |}" % (glist(ins), glist(outs), reqs),
+            gapp("TFunc", glist(ins), glist(outs), reqs))
 
 
 def gvexpr(v) -> str:
@@ -598,7 +642,7 @@ def gvexpr(v) -> str:
     if k == "right":
         return gapp("ERight", ts(v[1]), vs(v[2]))
     if k == "func":
-        return gapp("EFunc", gfsig(v[2], func_out_types(v[2], v[3])))
+        return gapp("EFunc", gfunc_sig(v, False)[0])
     if k == "ext":
         return gapp("EExt", gcname(v[1]), gtyd(v[2]), glist(gname(x) for x in v[3]))
     if k == "int":
@@ -830,6 +874,55 @@ def rand_func(rng, depth):
     return ["func", rng.choice(["dfg", "dfg", "defn"]), ins, outs]
 
 
+REQ_EXTS = EXTS + ["arithmetic.int", "arithmetic.float", "prelude"]
+
+
+def rand_func_reqs(rng, depth):
+    """A function value whose DFG root declares extension requirements (separate generator: rand_func and the
+    streams built on it are unchanged)."""
+    f = rand_func(rng, depth)
+    n = rng.choice([1, 1, 1, 2, 3, 0])
+    return ["func", rng.choice(["dfgx", "dfgx", "load"]), f[2], f[3], rng.sample(REQ_EXTS, n)]
+
+
+def rand_val_reqs(rng, depth):
+    """A function value with extension requirements, bare or inside helper towers / raw sums / collections."""
+    v = rand_func_reqs(rng, 2)
+    for _ in range(depth):
+        r = rng.random()
+        sib = lambda: [rand_val(rng, 1) for _ in range(rng.choice([0, 0, 1, 2]))]
+        if r < 0.25:
+            return v
+        t = val_type_desc(v)
+        if r < 0.4:
+            a, b = sib(), sib()
+            v = ["tuple", a + [v] + b]
+        elif r < 0.5:
+            v = ["some", sib() + [v]]
+        elif r < 0.58:
+            v = ["left", [v] + sib(), [rand_ty(rng, 1, False) for _ in range(rng.choice([0, 1]))]]
+        elif r < 0.66:
+            v = ["right", [rand_ty(rng, 1, False) for _ in range(rng.choice([0, 1]))], sib() + [v]]
+        elif r < 0.76:
+            rows = [[rand_vty(rng, 1) for _ in range(rng.choice([0, 1]))] for _ in range(rng.choice([0, 1, 2]))]
+            tag = rng.randint(0, len(rows))
+            rows.insert(tag, [t])
+            v = ["sum", tag, ["sum", rows], [v]]
+        elif r < 0.84:
+            v = ["array", [v] * rng.choice([1, 2]), t]
+        elif r < 0.9:
+            v = ["list", [v] * rng.choice([1, 2]), t]
+        elif r < 0.94:
+            v = ["sarray", [v], t, "tbl"]
+        elif v[0] != "func":
+            v = ["tuple", [v]]
+        else:
+            # loaded as a constant inside the body of another function value (which may declare its own)
+            outer = rng.choice([["dfg"], ["defn"], ["dfgx", rng.sample(REQ_EXTS, 1)], ["load", rng.sample(REQ_EXTS, 2)]])
+            v = ["func", outer[0], [["bool"]], [["const", v], ["in", 0]]] + outer[1:]
+    return v
+
+
 def rand_val_of(rng, t, depth):
     """A value description of (exactly) the type t."""
     k = t[0]
@@ -982,4 +1075,13 @@ def shrink_val(v):
                 yield v[:pos] + [l[:i] + [s] + l[i + 1:]] + v[pos + 1:]
     if k == "func":
         for i in range(len(v[3])):
-            yield v[:3] + [v[3][:i] + v[3][i + 1:]]
+            yield v[:3] + [v[3][:i] + v[3][i + 1:]] + v[4:]
+        for i in range(len(v[2])):
+            if all(o[0] != "in" or o[1] != i for o in v[3]):          # an unused input
+                yield v[:2] + [v[2][:i] + v[2][i + 1:],
+                               [["in", o[1] - 1] if o[0] == "in" and o[1] > i else o for o in v[3]]] + v[4:]
+        if v[1] == "load":
+            yield [v[0], "dfgx"] + v[2:]
+        rq = func_reqs(v)
+        for i in range(len(rq)):
+            yield v[:4] + [rq[:i] + rq[i + 1:]]
